@@ -12,7 +12,7 @@ ASSUMPTIONS = [
 EXPLANATION = "refinement proof (Coq) of the iterator model to the cursor specification + correspondence of the model with the real C++ and C iterators on random operation histories"
 
 
-def correspond(ctx, nhist=None, variants=("default",), hi_frac=(70, 20, 8, 2)):
+def correspond(ctx, nhist=None, variants=("default",), hi_frac=(70, 20, 8, 2), use_oracle=False):
     rng = ctx.rng
     nhist = nhist or (2400 if ctx.thorough else 400)
     hists = []
@@ -23,6 +23,9 @@ def correspond(ctx, nhist=None, variants=("default",), hi_frac=(70, 20, 8, 2)):
     for k in range(nhist):
         b = "cpp" if k % 2 == 0 else "c"
         hists.append((b, iterlib.gen_history(rng, b, hi_frac=hi_frac)))
+    for k in range(nhist // 8):
+        b = "cpp" if k % 2 == 0 else "c"
+        hists.append((b, iterlib.hint_crossing_history(rng, b)))
     mismatches = []
     samples = []
     sigs = set()
@@ -55,9 +58,10 @@ def correspond(ctx, nhist=None, variants=("default",), hi_frac=(70, 20, 8, 2)):
             dist["switches"] += sum(1 for s in sg if s[:2] in ("NP", "PN"))
             dist["edge_switches"] += sum(1 for s in sg if s.endswith("@edge"))
             imp = [r for _, r, _ in ex]
-            if imp != mo[:len(imp)]:
-                j = next(i for i in range(len(imp)) if i >= len(mo) or imp[i] != mo[i])
-                sc = iterlib.spec_check(ex)
+            sc0 = iterlib.spec_check(ex) if use_oracle else None
+            if imp != mo[:len(imp)] or sc0 is not None:
+                j = next((i for i in range(len(imp)) if i >= len(mo) or imp[i] != mo[i]), sc0[0] if sc0 else 0)
+                sc = sc0 or iterlib.spec_check(ex)
                 m = {"key": "iter-history", "variant": variant, "binding": b, "ops": hists[hi][1],
                      "executed": [[o, r] for o, r, _ in ex[:j + 1]], "model_says": mo[j] if j < len(mo) else None,
                      "impl_says": imp[j], "model_oracles": params[hi]}
@@ -78,7 +82,7 @@ def correspond(ctx, nhist=None, variants=("default",), hi_frac=(70, 20, 8, 2)):
 def search(ctx, broken):
     """a proof obligation broke: look for a failing history with more seeds and all magnitudes"""
     sub = type(ctx)(ctx.pid, ctx.tier, ctx.seed + 7919)
-    res = correspond(sub, nhist=1200, variants=("default", "portable"))
+    res = correspond(sub, nhist=800, variants=("default", "portable"), use_oracle=True)
     return [m for m in res["mismatches"] if m.get("failing_input")]
 
 
